@@ -12,7 +12,7 @@ META = {
                    'interp(old, blend(src, old), w) / over_in(src, old, w) with whole-word combinators on operands of one pixel; R03.6 every '
                    'float->byte alpha conversion saturates at 255 (a scale above 256 breaks r,g,b <= a by overflowing into the neighbouring '
                    'channel); R03.5 the solid colour is scaled by the whole-word alpha_mul.',
-    'decides': ['R03.11 global alpha converted to the 0..=256 scale exactly once', 'R18.1 premultiplying conversions', 'R18.2 alpha-carrying image shaders scale texels with the whole-word alpha_mul family', 'R03.4 whole-word combinators with the right operand roles', 'R03.6 alpha scale factors saturate', 'R03.5 solid colour scaled by alpha_mul'],
+    'decides': ['R06.3 layer opacity is applied through the coverage weighting of composite', 'R03.11 global alpha converted to the 0..=256 scale exactly once', 'R18.1 premultiplying conversions', 'R18.2 alpha-carrying image shaders scale texels with the whole-word alpha_mul family', 'R03.4 whole-word combinators with the right operand roles', 'R03.6 alpha scale factors saturate', 'R03.5 solid colour scaled by alpha_mul'],
     'does_not_decide': ['the invariant itself under blending, coverage interpolation and source-over (sw-composite arithmetic)', 'gradient and image sampling'],
     'assumptions': ['muldiv255(a, c) <= a for c <= 255; alpha_mul/lerp/over_in keep r,g,b <= a for factors <= 256 (external, sw-composite)'],
     'trusted_base': ['sw-composite 0.7.16'],
@@ -179,4 +179,4 @@ _r15_4.__name__ = 'r15_4'
 
 
 def run(ctx):
-    engine.run_rules(ctx, [r18_1, r18_1b, r18_2, dt.r03_4, dt.r03_6, dt.r03_5, dt.r03_8, dt.r02_7, dt.r03_11, dt.r03_1, _r15_4])
+    engine.run_rules(ctx, [r18_1, r18_1b, r18_2, dt.r03_4, dt.r03_6, dt.r03_5, dt.r03_8, dt.r02_7, dt.r03_11, dt.r03_1, _r15_4, dt.r06_3])
